@@ -21,6 +21,7 @@ import (
 	"fmt"
 	"reflect"
 	"regexp"
+	"sort"
 	"time"
 	"unicode"
 	"unicode/utf8"
@@ -473,7 +474,13 @@ func normalizeStructInto(cfg *Config, opts *options, from reflect.Value) Error {
 			vField := chaseValue(v.Field(i))
 			switch vField.Kind() {
 			case reflect.Struct:
-				err = normalizeStructInto(cfg, opts, vField)
+				if c, ok := tryTConfig(vField); ok {
+					// an existing Config: its settings become settings of the
+					// enclosing object (it has no exported fields to walk)
+					err = normalizeConfigInto(cfg, opts, c.Addr().Interface().(*Config))
+				} else {
+					err = normalizeStructInto(cfg, opts, vField)
+				}
 			case reflect.Map:
 				err = normalizeMapInto(cfg, opts, vField)
 			default:
@@ -491,6 +498,28 @@ func normalizeStructInto(cfg *Config, opts *options, from reflect.Value) Error {
 	return nil
 }
 
+// normalizeConfigInto adds the named settings of the inlined Config from to
+// cfg. from is only read: the values added are copies.
+func normalizeConfigInto(cfg *Config, opts *options, from *Config) Error {
+	if from.fields == nil {
+		return nil
+	}
+	dict := from.fields.dict()
+	names := make([]string, 0, len(dict))
+	for name := range dict {
+		names = append(names, name)
+	}
+	sort.Strings(names)
+	for _, name := range names {
+		// the names of a Config are single path elements already
+		p := cfgPath{sep: opts.pathSep, fields: []field{namedField{name}}}
+		if err := normalizeSetValue(cfg, opts, p, name, dict[name].cpy(context{})); err != nil {
+			return err
+		}
+	}
+	return nil
+}
+
 func normalizeSetField(
 	cfg *Config,
 	opts *options,
@@ -502,8 +531,10 @@ func normalizeSetField(
 	if err != nil {
 		return err
 	}
+	return normalizeSetValue(cfg, opts, parsePathWithOpts(name, opts), name, val)
+}
 
-	p := parsePathWithOpts(name, opts)
+func normalizeSetValue(cfg *Config, opts *options, p cfgPath, name string, val value) Error {
 	old, err := p.GetValue(cfg, opts)
 	if err != nil {
 		if err.Reason() == ErrExpectedObject {
